@@ -148,6 +148,21 @@ def run_c12(tier, seed):
             b = dict(a, id="p%db" % g_i, ops=gen.gen_ops(rng, a["type"], a["order"], max(U, 4), min(len(a["ops"]), 300), True))
             late = dict(a, id="p%dc" % g_i, ops=["C 0.0 -1 0", "S 0.0"] + gen.gen_ops(rng, a["type"], a["order"], max(U, 4), 30, True) + ["C 0.0 -1 0"])
             pair_cases += [a, b, late]
+        # larger orders (node-recycling "optimisations" tend to apply only to big nodes): fill to several leaves, merge
+        # leaves in the middle of the chain, then construct the late tree and scan it
+        g_i = len(pair_cases) // 3
+        for order in (16, 64):
+            for typ in shadow.TYPE_NAMES:
+                U = 5 * order
+                keys = gen.key_table(rng, typ, U)
+                fill = ["I %d.0 %d" % (c, c) for c in range(U)]
+                lo = rng.randrange(order, 2 * order)
+                dels = ["D %d.0" % c for c in range(lo, lo + 2 * order)]
+                a = dict(id="p%da" % g_i, type=typ, order=order, keys=keys, ops=fill + dels + ["C 0.0 -1 0"], noshrink=True)
+                b = dict(id="p%db" % g_i, type=typ, order=order, keys=keys, ops=fill[: 3 * order] + ["D %d.0" % c for c in range(order // 2, order + order // 2)] + ["C 0.0 -1 0"], noshrink=True)
+                late = dict(id="p%dc" % g_i, type=typ, order=order, keys=keys, ops=["C 0.0 -1 0", "S 0.0"] + ["I %d.0 %d" % (c, c) for c in range(0, U, 7)] + ["C 0.0 -1 0"], noshrink=True)
+                pair_cases += [a, b, late]
+                g_i += 1
         gp, mp = seqcheck.run_cases(vh, pair_cases, tmp, tag="pairs", mode="pairs")
         pair_mm = []
         for c in pair_cases:
